@@ -31,7 +31,7 @@ Step ==
          c == e.c
          isConn == c # "app"
          wasV == c \in verified
-         genuine == e.a = "VFinish" /\ e.p = "genuine" /\ "legit" \in store
+         genuine == e.a = "VFinish" /\ e.p \in {"genuine", "genuine_inject"} /\ "legit" \in store
      IN
      \* C03: an encrypted answer only on a verified connection; every non-genuine finish and every malformed start
      \* is answered with an error (or the connection is dropped)
@@ -48,7 +48,9 @@ Step ==
      /\ Report("RefusalChangesNothing",
                (isConn /\ ~wasV /\ e.a # "Close") =>
                   (e.val = val /\ e.cb = cb /\ SetOf(e.subs) \subseteq subs /\ SetOf(e.store) = store))
-     /\ verified' = IF genuine /\ FinishOK(e) THEN verified \cup {c}
+     \* bytes the adversary appended to the genuine finish are not served as a request of the session
+     /\ Report("NoPlainInSession", e.p = "genuine_inject" => ~e.injserved)
+     /\ verified' = IF genuine /\ FinishOK(e) /\ e.p # "genuine_inject" THEN verified \cup {c}
                     ELSE IF e.a = "Close" THEN verified \ {c} ELSE verified
      /\ val' = e.val /\ cb' = e.cb /\ subs' = SetOf(e.subs) /\ store' = SetOf(e.store)
      /\ sok' = IF e.a = "VStart" THEN (IF StartOK(e) THEN sok \cup {c} ELSE sok \ {c})
